@@ -508,6 +508,45 @@ def r11_continue(text):
         # `continue;` must be the last statement of that block
         if m[mt.end():cb].strip() != "":
             raise Unsupported("R11: continue not last in its block")
+        # let-else form: `let PAT = EXPR else { continue; }; REST` -> `if let PAT = EXPR { REST }` where REST runs to the
+        # end of the enclosing block, and that block is the loop body or a tail `else { .. }` of it (R11 output)
+        k0 = ob - 1
+        while k0 >= 0 and m[k0] not in ";{}":
+            if m[k0] in ")]":
+                k0 = match_open(m, k0)
+            k0 -= 1
+        seg = m[k0 + 1:ob]
+        lm = re.match(r"(\s*)let\s+(.*?)\s*=\s*(.*?)\s*else\s*$", seg, re.S)
+        if lm and m[mt.start() - 1:mt.start()] != "" and m[ob + 1:mt.start()].strip() == "":
+            let_s = k0 + 1 + len(lm.group(1))
+            semi = skip_ws(m, cb + 1)
+            if m[semi] != ";":
+                raise Unsupported("R11: let-else without `;`")
+            enc = _enclosing_open(m, let_s)
+            blk = enc
+            while True:
+                hk = _block_header_kw(m, blk)
+                if hk is not None and hk[0] in ("for", "while", "loop"):
+                    break
+                if hk is None or hk[0] != "else":
+                    raise Unsupported("R11: let-else continue not in the tail of a loop body")
+                bc = match_close(m, blk)
+                par = _enclosing_open(m, blk)
+                if par is None or m[bc + 1:match_close(m, par)].strip() != "":
+                    raise Unsupported("R11: let-else continue not in the tail of a loop body")
+                blk = par
+            if hk[0] != "for":
+                return []
+            ec = match_close(m, enc)
+            pat = text[k0 + 1 + lm.start(2):k0 + 1 + lm.end(2)]
+            q = ec
+            while q > 0 and text[q - 1] in " \t":
+                q -= 1
+            e_pos = k0 + 1 + lm.start(3)
+            e_end = k0 + 1 + lm.end(3)
+            return [Edit(let_s, let_s, "if ", "R11"),
+                    Edit(e_end, semi + 1, " {", "R11"),
+                    Edit(q, q, text[q:ec] + "    }\n", "R11")]
         # that block must be the body of an else-less `if` which is a statement of a for body
         hdr_if = _block_header_kw(m, ob)
         if hdr_if is None or hdr_if[0] != "if":
@@ -619,7 +658,8 @@ def r13_for_ref(text, idents=()):
 # ---------------------------------------------------------------- R15 `for (i, x) in E.iter().enumerate() {`
 def r15_enumerate(text):
     """`for (I, X) in E.iter().enumerate() { BODY }` ->
-       `let en_N_ = &E; for I in 0..en_N_.len() { let X = &en_N_[I]; BODY }`  (one site per call).
+       `let en_N_ = &E; for I in 0..en_N_.len() { let X = &en_N_[I]; BODY }`  (one site per call);
+       with a trailing `.skip(S)` the range starts at S (an empty range when S exceeds the length, as skip does).
     Identical for slices / Vecs (E is evaluated once, elements visited in index order); any other
     adapter chain stays unsupported (=> undecided)."""
     m = mask(text)
@@ -636,9 +676,10 @@ def r15_enumerate(text):
         pat_s, pat_e = mt.end(), mt.end() + inm.start()
         es, ee = mt.end() + inm.end(), bo
         expr = text[es:ee].strip()
-        em = re.fullmatch(r"(.*?)\s*\.\s*iter\s*\(\s*\)\s*\.\s*enumerate\s*\(\s*\)", expr, re.S)
+        em = re.fullmatch(r"(.*?)\s*\.\s*iter\s*\(\s*\)\s*\.\s*enumerate\s*\(\s*\)(?:\s*\.\s*skip\s*\((.*)\))?", expr, re.S)
         if not em:
             continue
+        lo = (em.group(2) or "0").strip()
         pat = text[pat_s:pat_e].strip()
         pm = re.fullmatch(r"\(\s*([a-z_][A-Za-z0-9_]*)\s*,\s*([a-z_][A-Za-z0-9_]*)\s*\)", pat)
         if not pm:
@@ -654,7 +695,7 @@ def r15_enumerate(text):
         indent = text[q:ls] if (q == 0 or text[q - 1] == "\n") else ""
         base = em.group(1).strip()
         e1 = Edit(ls, ls, "let %s = &%s;\n%s" % (name, base, indent), "R15")
-        e2 = Edit(pat_s, bo, " %s in 0..%s.len() " % (pm.group(1), name), "R15")
+        e2 = Edit(pat_s, bo, " %s in %s..%s.len() " % (pm.group(1), lo, name), "R15")
         e3 = Edit(bo + 1, bo + 1, " let %s = &%s[%s];" % (pm.group(2), name, pm.group(1)), "R15")
         return [e1, e2, e3]
     return []
@@ -738,6 +779,23 @@ def r17_fold(text):
 
 
 # ---------------------------------------------------------------- R18 abstract a listed let-initialiser
+def _fn_body(m):
+    mt = re.search(r"(?<![A-Za-z0-9_])fn\s+[A-Za-z_]", m)
+    if not mt:
+        return None
+    k = mt.end()
+    while k < len(m):
+        if m[k] in "([":
+            k = match_close(m, k) + 1
+            continue
+        if m[k] == "{":
+            return k, match_close(m, k)
+        if m[k] == ";":
+            return None
+        k += 1
+    return None
+
+
 def r18_abstract_let(text, names=()):
     """`let NAME = EXPR;` (NAME listed in `abstract_lets`) -> `let NAME = abstracted_value();`: the initialiser
     (an iterator-adapter chain Verus cannot take) is replaced by a contract-less external function, i.e. by an
@@ -745,7 +803,7 @@ def r18_abstract_let(text, names=()):
     proved about NAME itself, and the dropped expression is reported. Only side-effect-free initialisers may be
     listed (the listing is part of the trusted unit description)."""
     m = mask(text)
-    for name in names:
+    for name in [n for n in names if n != "@tail"]:
         for mt in re.finditer(r"(?<![A-Za-z0-9_])let\s+%s\s*=\s*" % re.escape(name), m):
             s0 = mt.end()
             if m.startswith("abstracted_value()", s0):
@@ -754,6 +812,91 @@ def r18_abstract_let(text, names=()):
             if e >= len(m) or m[skip_ws(m, e)] != ";":
                 raise Unsupported("R18: initialiser of `%s` does not end in `;`" % name)
             return [Edit(s0, e, "abstracted_value()", "R18")]
+    if "@tail" in names:
+        # the tail expression of the function body (its result) -> an arbitrary value of the return type
+        fb = _fn_body(m)
+        if fb:
+            bo, bc = fb
+            j = skip_ws_back(m, bc)
+            if m[j] not in ";{":
+                k = j
+                while k > bo:
+                    c = m[k]
+                    if c in ")]":
+                        k = match_open(m, k) - 1
+                        continue
+                    if c == "}":
+                        nx = skip_ws(m, k + 1)
+                        if m.startswith("else", nx) or m[nx] in ".?":
+                            k = match_open(m, k) - 1
+                            continue
+                        break
+                    if c in ";{":
+                        break
+                    k -= 1
+                st = skip_ws(m, k + 1)
+                if not m.startswith("abstracted_value()", st):
+                    return [Edit(st, j + 1, "abstracted_value()", "R18")]
+    return []
+
+
+# ---------------------------------------------------------------- R19 `M.entry(K).or_insert(V);` as a statement
+def r19_entry_or_insert(text):
+    """`M.entry(K).or_insert(V);` with the result unused and K, M plain identifiers ->
+    `if !M.contains_key(&K) { M.insert(K, V); }` (std HashMap: insert-if-absent; K is Copy in every listed site)."""
+    m = mask(text)
+    for mt in re.finditer(r"(?<![A-Za-z0-9_.])([a-z_][A-Za-z0-9_]*)\s*\.\s*entry\s*\(\s*([a-z_][A-Za-z0-9_]*)\s*\)\s*\.\s*or_insert\s*\(", m):
+        op = mt.end() - 1
+        cp = match_close(m, op)
+        k = skip_ws(m, cp + 1)
+        j = skip_ws_back(m, mt.start())
+        if m[k] != ";" or (j >= 0 and m[j] not in ";{}"):
+            continue
+        mp, key = mt.group(1), mt.group(2)
+        val = text[op + 1:cp]
+        return [Edit(mt.start(), k + 1, "if !%s.contains_key(&%s) { %s.insert(%s, %s); }" % (mp, key, mp, key, val), "R19")]
+    return []
+
+
+# ---------------------------------------------------------------- R20 reverse scan of a slice suffix
+def r20_rev_suffix(text):
+    """`for X in E[A..].iter().rev() { B }` ->
+    `let rv_N_ = &E; assert!(A <= rv_N_.len()); let mut rv_i_N_ = rv_N_.len(); while rv_i_N_ > A { rv_i_N_ -= 1; let X = &rv_N_[rv_i_N_]; B }`
+    (the `assert!` keeps the panic of the range index when A exceeds the length; elements are visited from the
+    last down to index A). B must not contain `continue` (it would skip nothing here, but keep the shape simple)."""
+    m = mask(text)
+    n = 0
+    for mt in re.finditer(r"(?<![A-Za-z0-9_])for(?![A-Za-z0-9_])", m):
+        try:
+            bo = _cond_end(m, mt.end())
+        except Unsupported:
+            continue
+        inm = re.search(r"\sin\s", m[mt.end():bo])
+        if not inm:
+            continue
+        n += 1
+        expr = text[mt.end() + inm.end():bo].strip()
+        em = re.fullmatch(r"([A-Za-z_][A-Za-z0-9_\.]*)\s*\[\s*([A-Za-z_][A-Za-z0-9_\.]*)\s*\.\.\s*\]\s*\.\s*iter\s*\(\s*\)\s*\.\s*rev\s*\(\s*\)", expr)
+        if not em:
+            continue
+        pat = text[mt.end():mt.end() + inm.start()].strip()
+        if not re.fullmatch(r"[a-z_][A-Za-z0-9_]*", pat):
+            raise Unsupported("R20: pattern other than a plain variable")
+        bc = match_close(m, bo)
+        if re.search(r"(?<![A-Za-z0-9_])continue(?![A-Za-z0-9_])", m[bo:bc]):
+            raise Unsupported("R20: continue inside the loop body")
+        j = skip_ws_back(m, mt.start())
+        if j >= 0 and m[j] not in ";{}":
+            raise Unsupported("R20: `for` not at statement start")
+        rv, ri = "rv_%d_" % n, "rv_i_%d_" % n
+        ls = mt.start()
+        q = ls
+        while q > 0 and text[q - 1] in " \t":
+            q -= 1
+        indent = text[q:ls] if (q == 0 or text[q - 1] == "\n") else ""
+        base, lo = em.group(1), em.group(2)
+        return [Edit(ls, bo, "let %s = &%s;\n%sassert!(%s <= %s.len());\n%slet mut %s = %s.len();\n%swhile %s > %s " % (rv, base, indent, lo, rv, indent, ri, rv, indent, ri, lo), "R20"),
+                Edit(bo + 1, bo + 1, " %s -= 1; let %s = &%s[%s];" % (ri, pat, rv, ri), "R20")]
     return []
 
 
@@ -769,7 +912,7 @@ def r14_const_fn(text):
 # ---------------------------------------------------------------- R15 matches! with binding-free patterns is fine; nothing to do
 
 
-ITERATED = {"R6", "R7", "R10", "R11", "R15", "R16", "R17", "R18"}
+ITERATED = {"R6", "R7", "R10", "R11", "R15", "R16", "R17", "R18", "R19", "R20"}
 
 TABLE = {
     "R1": r1_visibility,
@@ -790,10 +933,12 @@ TABLE = {
     "R16": r16_for_to_while,
     "R17": r17_fold,
     "R18": r18_abstract_let,
+    "R19": r19_entry_or_insert,
+    "R20": r20_rev_suffix,
 }
-ORDER = ["R2", "R1", "R1p", "R14", "R4", "R3", "R5", "R6", "R15", "R13", "R11", "R7", "R8", "R12", "R17", "R18", "R10", "R16"]
+ORDER = ["R2", "R1", "R1p", "R14", "R4", "R3", "R5", "R6", "R15", "R13", "R11", "R7", "R8", "R12", "R17", "R18", "R19", "R20", "R10", "R16"]
 
-EXEC_TOUCHING = {"R3", "R4", "R6", "R7", "R8", "R10", "R11", "R12", "R13", "R14", "R15", "R16", "R17", "R18"}
+EXEC_TOUCHING = {"R3", "R4", "R6", "R7", "R8", "R10", "R11", "R12", "R13", "R14", "R15", "R16", "R17", "R18", "R19", "R20"}
 
 
 def apply_rewrites(text, enabled, opts=None):
